@@ -91,6 +91,9 @@ func c04Seeds(r *rng) [][]byte {
 	seeds = append(seeds, mk("batch", 2, genSameSchemaDocs(r, o, 4), metaDocs[0]))
 	// 3. streaming output with zero runs
 	seeds = append(seeds, mk("stream", 3, [][]elem{d(7, 7), d(7, 7), d(7, 7), d(7, 8), d(0, 8)}, metaDocs[1]))
+	// 4. chunks whose reference document has no metrics at all (only non-metric leaves)
+	z := func(t string) []elem { return []elem{{"s", &val{T: 0x02, B: []byte(t)}}, {"o", &val{T: 0x0A}}} }
+	seeds = append(seeds, mk("batch", 2, [][]elem{z("u"), z("v"), z("w")}, nil))
 	return seeds
 }
 
@@ -179,6 +182,22 @@ func c04Mutants(r *rng, seed []byte, thorough bool, emit func(tag string, b []by
 				}))
 			}
 		}
+		// the two count fields of the payload (metrics, deltas) set to boundary values
+		for fi, field := range []string{"nm", "nd"} {
+			for _, nv := range []uint32{0, 1, 2, 50000, 1<<27 + 1, 1 << 31, 0xFFFFFFFF} {
+				fo, v := fi*4, nv
+				emit(fmt.Sprintf("p%s%d=%d", field, c, nv), withPayload(seed, c, func(p []byte) []byte {
+					m := append([]byte{}, p...)
+					if len(m) >= 4 {
+						rl := int(binary.LittleEndian.Uint32(m))
+						if rl+8 <= len(m) {
+							binary.LittleEndian.PutUint32(m[rl+fo:], v)
+						}
+					}
+					return m
+				}))
+			}
+		}
 		// count fields of the payload: they follow the reference document
 		emit(fmt.Sprintf("pcount%d", c), withPayload(seed, c, func(p []byte) []byte {
 			m := append([]byte{}, p...)
@@ -260,13 +279,17 @@ func init() {
 		total := 0
 		seen := map[string]bool{}
 		for si, seed := range c04Seeds(r) {
+			light := si == 3
 			c04Mutants(r, seed, thorough, func(tag string, b []byte) {
+				if light && !strings.HasPrefix(tag, "pn") && !(strings.HasPrefix(tag, "prefix") && len(b)%7 == 0) {
+					return
+				}
 				h := hex.EncodeToString(b)
 				if seen[h] {
 					return
 				}
 				seen[h] = true
-				if !thorough && total > 0 && !strings.HasPrefix(tag, "prefix") && !strings.HasPrefix(tag, "pcut") && r.intn(100) < 35 {
+				if !thorough && total > 0 && !strings.HasPrefix(tag, "prefix") && !strings.HasPrefix(tag, "pcut") && !strings.HasPrefix(tag, "pn") && r.intn(100) < 35 {
 					return
 				}
 				so.printf("s%d.%s %s\n", si, tag, h)
